@@ -282,7 +282,7 @@ def muxWalk (guard : Bool) : Bool → Bool → List MEv → MOut
   | _, _, [] => .noPanic
   | h, d, .other :: r => muxWalk guard h d r
   | _, d, .tfhd ok :: r => if ok then muxWalk guard true d r else .noPanic
-  | h, d, .tfdt ok tf :: r =>
+  | h, _, .tfdt ok tf :: r =>
     if !ok then .noPanic
     else if !h then (if guard then .noPanic else .panicNil)
     else if !tf then .noPanic
